@@ -328,7 +328,10 @@ class RenderAnnotation(GenericTypeRewriter[str]):
         elif isinstance(typ, NoneType) or typ is NoneType:
             rendered = "None"
         elif is_generic(typ):
-            rendered = repr(typ)
+            # repr() shows string arguments as ForwardRef('X'); stubs spell them 'X'
+            rendered = re.sub(
+                r"ForwardRef\(('[^']*'|\"[^\"]*\")(?:, module=[^)]*)?\)", r"\1", repr(typ)
+            )
         elif isinstance(typ, type):
             if typ.__module__ in ("builtins",):
                 rendered = typ.__qualname__
